@@ -110,6 +110,7 @@ func (e *Engine) visitInstr(fr *frame, instr ssa.Instruction) (ret bool) {
 	if p := instr.Pos(); p.IsValid() {
 		fr.curPos = p
 	}
+	e.curFr = fr
 	switch instr := instr.(type) {
 	case *ssa.DebugRef:
 	case *ssa.UnOp:
@@ -201,12 +202,40 @@ func (e *Engine) visitInstr(fr *frame, instr ssa.Instruction) (ret bool) {
 		}
 		*addr = e.zero(deref(instr.Type()))
 	case *ssa.MakeSlice:
-		capV := e.concreteInt(fr, fr.get(instr.Cap), 4096, "make cap")
-		lenV := e.concreteInt(fr, fr.get(instr.Len), 4096, "make len")
+		capT, _ := fr.get(instr.Cap).(*sym.Term)
+		lenT, _ := fr.get(instr.Len).(*sym.Term)
+		symSize := (capT != nil && !capT.IsConst()) || (lenT != nil && !lenT.IsConst())
+		if symSize {
+			limit := int64(4096)
+			set := false
+			if v, ok := e.kv["__alloc_limit"]; ok {
+				limit = v.(*sym.Term).SignedVal()
+				set = true
+			}
+			c64 := e.to64(instr.Cap.Type(), capT)
+			over := e.T.Slt(e.intC(limit), c64)
+			if set {
+				e.covers["assert:engine: allocation of an announced length"] = true
+				e.Assert(e.T.Not(over), "engine: allocation sized by an announced length exceeds the delivered bytes", e.where(fr))
+			} else if e.Branch(over) {
+				panic(pathEnd{"bound", fmt.Sprintf("allocation with input-dependent size above %d at %s", limit, e.where(fr))})
+			}
+			if v, ok := e.kv["__alloc_cut"]; ok {
+				if e.Branch(e.T.Slt(v.(*sym.Term), c64)) {
+					panic(pathEnd{"cut", "allocation larger than the harness's AllocCut bound"})
+				}
+			}
+			// negative sizes panic in Go
+			if e.Branch(e.T.Slt(c64, e.intC(0))) {
+				e.rtPanic(fr, "makeslice: cap out of range")
+			}
+		}
+		capV := e.concreteInt(fr, fr.get(instr.Cap), 4200, "make cap")
+		lenV := e.concreteInt(fr, fr.get(instr.Len), 4200, "make len")
 		if lenV < 0 || capV < lenV {
 			e.rtPanic(fr, "makeslice: len out of range")
 		}
-		if int(capV) > e.maxAlloc {
+		if symSize && int(capV) > e.maxAlloc {
 			e.maxAlloc = int(capV)
 		}
 		if capV > 1<<22 {
